@@ -367,8 +367,15 @@ def check_rehash(ctx, prog):
         for e in fn_exprs(f):
             if e.get('k') == 'bin' and e.get('op') == '=' and strip_lv(e['x']).get('k') == 'var' and is_next_of(e['y']):
                 succ_of[strip_lv(e['x'])['id']] = strip(strip(e['y'])['b'])['id']
+        for s_ in ir.walk_stmts(f['body']):
+            if s_.get('k') == 'decl':
+                for v in s_['vars']:
+                    if v.get('init') is not None and is_next_of(v['init']):
+                        succ_of[v['id']] = strip(strip(v['init'])['b'])['id']       # T* const next = p->next;
 
         def step(nd, st):
+            if nd.kind == 'decl' and isinstance(nd.info, dict) and nd.info.get('id') in succ_of and nd.info.get('init') is not None and is_next_of(nd.info['init']):
+                return 'pending:%d' % succ_of[nd.info['id']]
             if nd.kind != 'ev' or nd.e is None:
                 return st
             e = nd.e
